@@ -1,7 +1,7 @@
 ------------------------------ MODULE DestTrace ------------------------------
 (* Trace validation for Dest: the state of Dest is rebuilt from what a real receive did and  *)
 (* Dest's own invariants are evaluated on it.  Events (harness/c07_dest.go), per run:         *)
-(*   reset{overwrite,directory,proto,role,stopdel}                                            *)
+(*   reset{overwrite,directory,proto,role,stopdel,samepre}   samepre: pre as in the run before *)
 (*   src{entries:[{site,pid,rel,dir,c}]}      what the sender announces (rel: elements as atoms)*)
 (*   pre{paths:[{up,p,t,c}]}                  snapshot of the sandbox before the receive       *)
 (*   name{site,pid,rel,ok,chosen}             a NAME on the wire and the local name replied    *)
@@ -34,7 +34,9 @@ TReset ==
     /\ IsEvent("reset")
     /\ cfg' = [overwrite |-> Ev.overwrite, directory |-> Ev.directory, proto |-> Ev.proto, role |-> Ev.role,
                stopdel |-> Ev.stopdel]
-    /\ plan' = <<>> /\ pre' = <<>> /\ fs' = <<>> /\ nameMap' = <<>> /\ created' = <<>> /\ reported' = <<>>
+    /\ plan' = <<>> /\ nameMap' = <<>> /\ created' = <<>> /\ reported' = <<>>
+    /\ pre' = (IF Ev.samepre THEN pre ELSE <<>>)       \* same sandbox content as in the previous run
+    /\ fs' = WorldOf(pre')
     /\ outside' = {} /\ phase' = "recv" /\ exhausted' = FALSE
     /\ UNCHANGED <<incoming, cur, round>>
 
